@@ -96,8 +96,13 @@ func (l *Lexer) atTaskKeyword() bool {
 	if !strings.HasPrefix(l.rest(), keyword) {
 		return false
 	}
-	next, _ := utf8.DecodeRuneInString(l.rest()[len(keyword):])
-	return !isValidIdent(next)
+	after := l.rest()[len(keyword):]
+	next, _ := utf8.DecodeRuneInString(after)
+	if isValidIdent(next) {
+		return false
+	}
+	// 'task := ...' declares a variable that happens to be called task
+	return !strings.HasPrefix(strings.TrimLeftFunc(after, unicode.IsSpace), token.DECLARE.String())
 }
 
 // skipWhitespace consumes any utf-8 whitespace until something meaningful is hit.
